@@ -86,10 +86,11 @@ PowClass(b, e, m) == PowClassC(Coprime(b, m), e)
 PowClassOdd(b, e, m) == IF m % 2 = 1 THEN PowClass(b, e, m)
                         ELSE IF PowClass(b, e, m) = REFUSE THEN REFUSE ELSE MAY
 \* table-based routines: the table belongs to base tb and admits |e| < 2^T
-TabClass(tb, b, e, ebits, m, T) ==
+TabClassC(tb, b, cls, ebits, T) ==         \* cls: the class of the power itself
   IF ebits > T THEN REFUSE
-  ELSE IF tb # b THEN (IF PowClass(b, e, m) = REFUSE THEN REFUSE ELSE MAY)   \* wrong base: refuse, or the right value
-  ELSE PowClass(b, e, m)
+  ELSE IF tb # b THEN (IF cls = REFUSE THEN REFUSE ELSE MAY)   \* wrong base: refuse, or the right value
+  ELSE cls
+TabClass(tb, b, e, ebits, m, T) == TabClassC(tb, b, PowClass(b, e, m), ebits, T)
 \* an observed outcome (value >= 0, or -1 for a refusal) against value v and class c
 OutcomeOK(out, v, c) == CASE c = MUST -> out = v
                           [] c = MAY -> out = v \/ out = -1
